@@ -246,10 +246,24 @@ func ruleErrorsLookedAt(r *Report, rule string, pkgFilter func(rel string) bool,
 						return true
 					}
 					live := liveAfter(info, g, l, v, false)
-					for _, fl := range earlierDeferred {
-						if readsVar(info, fl.Body, v) {
-							live = true
-						}
+					// a value that is itself the outcome of a clean-up call (cerr := x.Close()) belongs to the
+					// clean-up class: losing it is the tree's accepted practice
+					if rid, ok := ast.Unparen(as.Rhs[0]).(*ast.Ident); ok && !live {
+						ro := info.ObjectOf(rid)
+						ast.Inspect(bu.Body, func(z ast.Node) bool {
+							if a2, ok := z.(*ast.AssignStmt); ok && len(a2.Rhs) == 1 {
+								if c2, ok := a2.Rhs[0].(*ast.CallExpr); ok {
+									for _, l2 := range a2.Lhs {
+										if info.ObjectOf(identOf(l2)) == ro && ro != nil {
+											if _, isCleanup := cleanupCallees[calleeShortName(info, c2)]; isCleanup {
+												live = true
+											}
+										}
+									}
+								}
+							}
+							return true
+						})
 					}
 					n++
 					r.Fn(fi)
@@ -329,10 +343,8 @@ func ruleErrorsLookedAt(r *Report, rule string, pkgFilter func(rel string) bool,
 							// a deferred closure runs when the function is returning: the store is seen only
 							// through a named result or by a deferred closure registered earlier (runs later)
 							live = outerNamed[v]
-							for _, fl := range earlierDeferred {
-								if readsVar(info, fl.Body, v) {
-									live = true
-								}
+							if _, isCleanup := cleanupCallees[nm]; isCleanup {
+								live = true // clean-up outcome: accepted to be lost
 							}
 							if !live {
 								r.Ob(rule, bu.Name+"/deferred-store-reaches-caller-"+nm, s.Pos(), false, "the error returned by "+exprShort(c)+" is stored in "+id.Name+" inside a deferred closure, but "+id.Name+" is not a named result of the enclosing function: the value the caller receives was fixed before the closure ran, so this failure is reported as success")
@@ -354,4 +366,11 @@ func ruleErrorsLookedAt(r *Report, rule string, pkgFilter func(rel string) bool,
 		}
 	}
 	return n
+}
+
+func identOf(e ast.Expr) *ast.Ident {
+	if id, ok := ast.Unparen(e).(*ast.Ident); ok {
+		return id
+	}
+	return &ast.Ident{Name: "_"}
 }
